@@ -11,7 +11,7 @@ CHECKS = {}
 NOT_APPLICABLE = {}
 
 # properties whose checks have been run end-to-end on the unchanged tree and are registered in MANIFEST.json
-CLAIMED = ['C01', 'C02', 'C03', 'C04', 'C05', 'C06', 'C07', 'C08', 'C09', 'C10', 'C14', 'C15', 'C16', 'C17', 'C18', 'C19', 'C20']
+CLAIMED = ['C01', 'C02', 'C03', 'C04', 'C05', 'C06', 'C07', 'C08', 'C09', 'C10', 'C11', 'C12', 'C13', 'C14', 'C15', 'C16', 'C17', 'C18', 'C19', 'C20']
 
 # one fragment per property under tools/checks.d/, exec'd in this namespace
 import os as _os, glob as _glob
